@@ -1,5 +1,138 @@
-(* AsyncConcIO.v — stub: replaced by the real decoder/runner when the property is built. *)
-From Coq Require Import List.
-From M Require Import Sx.
+(* AsyncConcIO.v — decoding of C08 cases (event programs + schedule) and encoding of the
+   per-step observations of the interleaving model AsyncConc.v. *)
+From Coq Require Import List Arith Bool.
+From M Require Import Sx AsyncConc.
 Import ListNotations.
-Definition run_asyncconc_case (x : sx) : sx := L [N 0].
+
+Definition d_act (x : sx) : option act :=
+  match x with
+  | L [N 0] => Some ANone
+  | L [N 1] => Some ARaise
+  | L [N 2; N e] => Some (ATrig e)
+  | L [N 3; N m] => Some (ARemove m)
+  | _ => None
+  end.
+
+(* a transition candidate: optional prepare / condition (action, result) / before callbacks,
+   optional destination (none: internal transition), optional after callback *)
+Record cand : Type := mkCand {
+  c_prep : option act; c_cond : option (act * bool); c_before : option act;
+  c_dest : option st; c_after : option act }.
+
+Definition d_cand (x : sx) : option cand :=
+  match x with
+  | L [p; c; b; d; a] =>
+      do p' <- d_option d_act p; do c' <- d_option (d_pair d_act d_bool) c;
+      do b' <- d_option d_act b; do d' <- d_option d_nat d; do a' <- d_option d_act a;
+      Some (mkCand p' c' b' d' a')
+  | _ => None
+  end.
+
+Definition ocb (j slot : nat) (o : option act) : list instr :=
+  match o with Some a => [ICb j slot a] | None => [] end.
+
+(* AsyncEvent._process / AsyncTransition.execute for fixed condition results: candidates are tried in
+   order; the first whose condition passes cancels the other tasks, runs before, sets the state, runs after *)
+Fixpoint compile (j : nat) (cs : list cand) : list instr :=
+  match cs with
+  | [] => []
+  | c :: r =>
+      ocb j 0 (c_prep c) ++
+      match c_cond c with
+      | Some (a, false) => ICb j 1 a :: compile (S j) r
+      | oc =>
+          match oc with Some (a, _) => [ICb j 1 a] | None => [] end ++
+          [IPass] ++ ocb j 2 (c_before c) ++
+          match c_dest c with Some d => [ISet d] | None => [] end ++ ocb j 3 (c_after c)
+      end
+  end.
+
+Definition d_event (x : sx) : option evdef :=
+  match x with
+  | L [N m; srcs; cands; fin] =>
+      do s <- d_list d_nat srcs; do cs <- d_list d_cand cands; do f <- d_option d_act fin;
+      Some (mkEv m s (compile 0 cs) (ocb 0 FIN f))
+  | _ => None
+  end.
+
+Definition e_res (r : res) : list sx :=
+  match r with RBool b => [N 0; e_bool b] | RExn x => [N 1; N x] | RNone => [N 2; N 0] end.
+
+(* only what the recording callbacks of the harness can see; ghost items are dropped *)
+Definition e_item (it : item) : list sx :=
+  match it with
+  | Start _ e j slot seen => [L [N 0; N e; N j; N slot; N seen]]
+  | End_ _ e j slot seen => [L [N 1; N e; N j; N slot; N seen]]
+  | Raised _ e j slot x => [L [N 2; N e; N j; N slot; N x]]
+  | TrigRet _ e r => [L (N 3 :: N e :: e_res r)]
+  | _ => []
+  end.
+Definition e_cancelled (it : item) : list sx :=
+  match it with GCancel _ e => [N e] | _ => [] end.
+
+Definition finished (t : task) : bool := match t_res t with Some _ => true | None => false end.
+
+Definition newly_done (old new : list task) : list sx :=
+  flat_map (fun t =>
+    match t_res t with
+    | Some r =>
+        if existsb (fun o => Nat.eqb (t_id o) (t_id t) && finished o) old then []
+        else [L (N (t_id t) :: e_res r)]
+    | None => []
+    end) new.
+
+Definition e_reg (nmodels : nat) (reg : list (model * ev)) : list sx :=
+  flat_map (fun m =>
+    match map snd (filter (fun p => Nat.eqb (fst p) m) reg) with
+    | [] => []
+    | l => [L [N m; e_list e_nat l]]
+    end) (seq 0 nmodels).
+
+Definition e_pending (ts : list task) : list sx :=
+  flat_map (fun t => match t_stack t with
+                     | k :: _ => if suspended t then [N (f_ev (kframe k))] else []
+                     | [] => [] end) ts.
+
+Section Run.
+  Variable defs : list evdef.
+  Variable mode : qmode.
+  Variables top protected : list ev.
+  Variable nmodels : nat.
+  Definition FUEL := 600.
+
+  Fixpoint run_steps (s : state) (sched : list ev) : list sx * state :=
+    match sched with
+    | [] => ([], s)
+    | e :: r =>
+        let k := step_kind top s e in
+        let s' := step defs mode top protected FUEL s e in
+        let new := skipn (length (h_log (s_sh s))) (h_log (s_sh s')) in
+        let o := L [N k; L (flat_map e_item new); L (flat_map e_cancelled new);
+                    L (newly_done (s_tasks s) (s_tasks s'));
+                    e_list e_nat (h_mstate (s_sh s'));
+                    L (e_reg nmodels (h_reg (s_sh s')));
+                    N 0;
+                    L (e_pending (s_tasks s'))] in
+        let (os, s'') := run_steps s' r in (o :: os, s'')
+    end.
+End Run.
+
+Definition d_mode (x : sx) : option qmode :=
+  match x with N 0 => Some QNone | N 1 => Some QShared | N 2 => Some QPerModel | _ => None end.
+
+(* case := [class; queued; nstates; model initial states; events; top; protected; schedule]
+   (class and nstates do not influence the model: flat and hierarchical async machines agree on flat
+   configurations; destinations are registered by construction of the generator) *)
+Definition run_asyncconc_case (x : sx) : sx :=
+  match x with
+  | L [_; q; _; ms; evs; tp; pr; sc] =>
+      match d_mode q, d_list d_nat ms, d_list d_event evs, d_list d_nat tp, d_list d_nat pr, d_list d_nat sc with
+      | Some mode, Some inits, Some defs, Some top, Some prot, Some sched =>
+          let (os, s) := run_steps defs mode top prot (length inits) (init_state mode inits) sched in
+          if s_oof s then L [N 9]
+          else L [N 1; L os;
+                  L (flat_map (fun t => if finished t then [] else [N (t_id t)]) (s_tasks s))]
+      | _, _, _, _, _, _ => L [N 0]
+      end
+  | _ => L [N 0]
+  end.
